@@ -41,6 +41,7 @@ func runC16(c *Ctx) {
 	lockPathIsRepoRelative(c, "R2")
 	locksOfAllRefsKnownBeforeUpload(c, "R1")
 	rawErrorsWhereClassified(c, "R4")
+	lockDecisionRecords(c, "R1")
 	prep := p.Fn("commands", "(*uploadContext).prepareUpload")
 	rep := p.Fn("commands", "(*uploadContext).ReportErrors")
 	if prep == nil || rep == nil {
